@@ -176,3 +176,31 @@ Qed.
 
 Lemma Qred_idem x : Qred (Qred x) = Qred x.
 Proof. apply Qred_complete. apply Qred_correct. Qed.
+
+(* max / min of pointwise ==-equal lists *)
+Lemma qmaxl1_Qeq x y l1 l2 : x == y -> Forall2 Qeq l1 l2 -> qmaxl1 x l1 == qmaxl1 y l2.
+Proof.
+  intros Hxy H. revert x y Hxy. induction H as [|a b l1 l2 Hab H IH]; intros x y Hxy; simpl; [exact Hxy|].
+  apply Q.max_compat; [exact Hxy| apply IH; exact Hab].
+Qed.
+Lemma qminl1_Qeq x y l1 l2 : x == y -> Forall2 Qeq l1 l2 -> qminl1 x l1 == qminl1 y l2.
+Proof.
+  intros Hxy H. revert x y Hxy. induction H as [|a b l1 l2 Hab H IH]; intros x y Hxy; simpl; [exact Hxy|].
+  apply Q.min_compat; [exact Hxy| apply IH; exact Hab].
+Qed.
+Lemma Forall2_map_Qeq {A} (f g : A -> Q) l : (forall x, In x l -> f x == g x) -> Forall2 Qeq (map f l) (map g l).
+Proof.
+  induction l as [|x l IH]; intros H; simpl; constructor.
+  - apply H. left. reflexivity.
+  - apply IH. intros y Hy. apply H. right. exact Hy.
+Qed.
+Lemma qmaxl_map_Qeq {A} (f g : A -> Q) l : (forall x, In x l -> f x == g x) -> qmaxl (map f l) == qmaxl (map g l).
+Proof.
+  intros H. destruct l as [|x l]; simpl; [reflexivity|].
+  apply qmaxl1_Qeq; [apply H; left; reflexivity| apply Forall2_map_Qeq; intros y Hy; apply H; right; exact Hy].
+Qed.
+Lemma qminl_map_Qeq {A} (f g : A -> Q) l : (forall x, In x l -> f x == g x) -> qminl (map f l) == qminl (map g l).
+Proof.
+  intros H. destruct l as [|x l]; simpl; [reflexivity|].
+  apply qminl1_Qeq; [apply H; left; reflexivity| apply Forall2_map_Qeq; intros y Hy; apply H; right; exact Hy].
+Qed.
